@@ -16,15 +16,29 @@ def load_contracts():
     return C.REGISTRY
 
 
+class ModularSet:
+    def __init__(self, scoped, general):
+        self.scoped, self.general = scoped, general
+
+    def pick(self, current_fuc):
+        for con in self.scoped:
+            if current_fuc and any(current_fuc.endswith(o) for o in con.only_in):
+                return con
+        return self.general
+
+
 def make_interp(prog):
     from .symex import Interp
     from .stdlib import Stdlib
     reg = load_contracts()
+    # call-site contracts per function: scoped views (only_in = names of the callers they are valid in) are all kept;
+    # of the unscoped ones the last registered is THE call-site contract of the function
     modular = {}
     for key, cons in reg.items():
-        for con in cons:
-            if con.modular:
-                modular[key] = con
+        scoped = [con for con in cons if con.modular and getattr(con, 'only_in', None)]
+        general = [con for con in cons if con.modular and not getattr(con, 'only_in', None)]
+        if scoped or general:
+            modular[key] = ModularSet(scoped, general[-1] if general else None)
     lib = Stdlib()
     try:
         from contracts import models_ext
